@@ -246,7 +246,7 @@ prop("C18", lambda tier: [binc("c18", "DAG_COMPONENTS=c18 engine/build_dag.sh", 
      assumptions=DAG_ASSUME)
 prop("C19", lambda tier: [binc("c19", "DAG_COMPONENTS=c19 engine/build_dag.sh", "build/c19/c19 --tier quick --stats {stats}", "build/c19/c19 --tier thorough --stats {stats}", DAG_ENGINE, deadline=(900, 4000))],
      "the executions of C18 x record-time settings, each dumped, read back (raw bytes, dr_read_dag, string table with 1-4 file names), validated structurally by an independent validator, replayed chronologically, "
-     "and converted with 18 conversion-time settings; converted DAGs validated and their totals compared with the input's; distinct = byte-wise distinct recorded DAGs per execution",
+     "and converted with 20 conversion-time settings; converted DAGs validated and their totals compared with the input's; distinct = byte-wise distinct recorded DAGs per execution",
      assumptions=DAG_ASSUME)
 
 prop("C17", lambda tier: [e1("c17", "harness/c17_bulk.c"), e1("c17m", "harness/c17_mtbb.cc", harness_flags="-I" + REPO + "/src -fpermissive")],
